@@ -32,7 +32,7 @@ CHECKS = {
         technique="runtime monitoring: allocation-log listener with stamped live regions (invariant at a hook)",
         text="Held on every event of the observed allocator histories (random walks + exhaustive small scope): "
              "bounds, alignment, disjointness and byte-stamp preservation are re-checked after each "
-             "allocate/free/grow on real BufferNumpy/BufferByteArray objects. Exploration, not proof.",
+             "allocate/free/grow on real BufferNumpy/BufferByteArray objects, also on a buffer and its deepcopy/unpickled copy driven side by side (each audited after every event of the other). Exploration, not proof.",
         note="Trusted: the monitor's wrappers on XBuffer.allocate/free/grow see every request; histories are "
              "well-formed (only live regions freed).", ref="2 C04"),
     "C12": dict(
@@ -92,7 +92,7 @@ CHECKS = {
         note="Elision asserted only for non-renamed numeric scalar / static array fields.", ref="2 C19"),
     "C20": dict(
         technique="runtime monitoring: reference-model comparison of unpickled objects, buffer-sharing relation check, write-isolation probes and an allocator walk with stamped regions on the unpickled buffers",
-        text="Held on the observed groups: every unpickled object equals its model and is writable, independent of the original's buffer; sharing relation preserved exactly; unpickled buffers keep capacity and free list and serve allocate/free/construct with disjoint, aligned, intact regions.",
+        text="Held on the observed groups: every unpickled object equals its model and is writable, independent of the original's buffer; sharing relation preserved exactly; unpickled buffers go on serving allocate/free/construct with disjoint, aligned, intact regions.",
         note="Classes are registered in a real module so that pickle can import them.", ref="2 C20"),
 }
 NOT_YET = {}
